@@ -35,7 +35,8 @@ const LiftDepth = 3
 
 type callerIndex struct {
 	sites   map[*ssa.Function][]ssa.CallInstruction
-	escaped map[*ssa.Function]bool // used as a value / bound method / interface dispatch possible
+	escaped map[*ssa.Function]bool                  // used as a value / bound method / interface dispatch possible
+	cb      map[*ssa.Function][]ssa.CallInstruction // closure / bound method handed directly to a call as a callback
 	built   bool
 }
 
@@ -43,7 +44,7 @@ func (w *World) callers() *callerIndex {
 	if w.cidx != nil && w.cidx.built {
 		return w.cidx
 	}
-	ci := &callerIndex{sites: map[*ssa.Function][]ssa.CallInstruction{}, escaped: map[*ssa.Function]bool{}}
+	ci := &callerIndex{sites: map[*ssa.Function][]ssa.CallInstruction{}, escaped: map[*ssa.Function]bool{}, cb: map[*ssa.Function][]ssa.CallInstruction{}}
 	for _, fn := range w.AllRepoFuncs() {
 		for _, b := range fn.Blocks {
 			for _, ins := range b.Instrs {
@@ -79,6 +80,28 @@ func (w *World) callers() *callerIndex {
 							if c, ok := (*mc.Referrers())[0].(ssa.CallInstruction); ok && c.Common().Value == ssa.Value(mc) {
 								ci.sites[f] = append(ci.sites[f], c)
 								continue
+							}
+							// handed straight to a call as an argument (iterator callback)
+							if c, ok := (*mc.Referrers())[0].(ssa.CallInstruction); ok {
+								target := f
+								if f.Synthetic != "" {
+									// bound method value x.m: the callback is the method itself
+									target = nil
+									for _, bb := range f.Blocks {
+										for _, bi := range bb.Instrs {
+											if bc, isC := bi.(ssa.CallInstruction); isC && bc.Common().StaticCallee() != nil {
+												target = bc.Common().StaticCallee()
+											}
+										}
+									}
+								}
+								if target != nil {
+									ci.cb[target] = append(ci.cb[target], c)
+									if target == f {
+										ci.escaped[f] = true // not liftable as a direct call
+									}
+									continue
+								}
 							}
 						}
 						ci.escaped[f] = true
@@ -118,6 +141,55 @@ func (w *World) LiftSites(fn *ssa.Function) []ssa.CallInstruction {
 	return ci.sites[fn]
 }
 
+// GuardSites returns the instructions under whose control fn runs when that set is completely
+// known: the direct call sites of a liftable helper, plus — for a closure or an unexported
+// bound method handed straight to a call as a callback — the call it is handed to.
+func (w *World) GuardSites(fn *ssa.Function) []ssa.CallInstruction {
+	if w == nil || fn == nil {
+		return nil
+	}
+	ci := w.callers()
+	direct := w.LiftSites(fn)
+	cbs := ci.cb[fn]
+	if len(cbs) == 0 {
+		return direct
+	}
+	if fn.Parent() == nil {
+		obj, _ := fn.Object().(*types.Func)
+		if obj == nil || obj.Exported() || (fn.Signature.Recv() != nil && w.mayBeInvoked(fn)) {
+			return nil
+		}
+		if len(ci.sites[fn]) > 0 && len(direct) == 0 {
+			return nil // also called directly but not liftable
+		}
+	} else if len(*closureRefs(fn)) != 1 {
+		return nil
+	}
+	out := append([]ssa.CallInstruction{}, direct...)
+	return append(out, cbs...)
+}
+
+// closureRefs returns the referrers of the MakeClosure that creates the anonymous function fn
+// (an empty list when it is created at several sites).
+func closureRefs(fn *ssa.Function) *[]ssa.Instruction {
+	var found *[]ssa.Instruction
+	n := 0
+	if p := fn.Parent(); p != nil {
+		for _, b := range p.Blocks {
+			for _, ins := range b.Instrs {
+				if mc, ok := ins.(*ssa.MakeClosure); ok && mc.Fn == ssa.Value(fn) {
+					n++
+					found = mc.Referrers()
+				}
+			}
+		}
+	}
+	if n != 1 || found == nil {
+		return &[]ssa.Instruction{}
+	}
+	return found
+}
+
 // mayBeInvoked reports whether a method can be reached by interface dispatch from repository
 // code: some interface method of the same name is invoked somewhere on a type its receiver implements.
 func (w *World) mayBeInvoked(fn *ssa.Function) bool {
@@ -152,7 +224,7 @@ func liftedGuardedBy(ins ssa.Instruction, pred func(Rel) bool, depth int) bool {
 	if Current == nil || depth <= 0 || ins == nil || ins.Parent() == nil {
 		return false
 	}
-	sites := Current.LiftSites(ins.Parent())
+	sites := Current.GuardSites(ins.Parent())
 	if len(sites) == 0 {
 		return false
 	}
@@ -228,7 +300,7 @@ func liftedAlwaysBefore(target ssa.Instruction, pred func(ssa.Instruction) bool,
 	if Current == nil || depth <= 0 || target == nil || target.Parent() == nil {
 		return false
 	}
-	sites := Current.LiftSites(target.Parent())
+	sites := Current.GuardSites(target.Parent())
 	if len(sites) == 0 {
 		return false
 	}
@@ -281,3 +353,78 @@ func upArgs(p *ssa.Parameter) []ssa.Value {
 }
 
 var _ = token.NoPos
+
+// Region returns fn, its closures and — transitively, up to LiftDepth levels — every liftable
+// helper (a function whose complete set of callers is known, see LiftSites) that is called
+// from the region. It is the set of functions "the body of fn" may have been spread over by
+// helper extraction or by turning a closure into a method; rules that scan one function for
+// constructs (stores, calls) scan its Region instead.
+func (w *World) Region(fn *ssa.Function) []*ssa.Function {
+	if fn == nil {
+		return nil
+	}
+	seen := map[*ssa.Function]bool{}
+	var out []*ssa.Function
+	var add func(f *ssa.Function, depth int)
+	add = func(f *ssa.Function, depth int) {
+		if f == nil || seen[f] || f.Blocks == nil {
+			return
+		}
+		seen[f] = true
+		out = append(out, f)
+		for _, a := range f.AnonFuncs {
+			add(a, depth)
+		}
+		if depth <= 0 {
+			return
+		}
+		for _, b := range f.Blocks {
+			for _, ins := range b.Instrs {
+				c, ok := ins.(ssa.CallInstruction)
+				if !ok {
+					continue
+				}
+				g := c.Common().StaticCallee()
+				// bound method values handed to a call as callback: x.Range(c.method)
+				for _, a := range c.Common().Args {
+					if mc, isMC := a.(*ssa.MakeClosure); isMC {
+						if bf, _ := mc.Fn.(*ssa.Function); bf != nil && bf.Synthetic != "" {
+							for _, bb := range bf.Blocks {
+								for _, bi := range bb.Instrs {
+									if bc, isC := bi.(ssa.CallInstruction); isC {
+										if h := bc.Common().StaticCallee(); h != nil && IsRepoPkg(pkgPathOf(h)) && len(w.GuardSites(h)) > 0 {
+											add(h, depth-1)
+										}
+									}
+								}
+							}
+						}
+					}
+				}
+				if g == nil || !IsRepoPkg(pkgPathOf(g)) {
+					continue
+				}
+				if len(w.LiftSites(g)) > 0 {
+					add(g, depth-1)
+				}
+			}
+		}
+	}
+	add(fn, LiftDepth)
+	return out
+}
+
+func outermostFn(f *ssa.Function) *ssa.Function {
+	for f.Parent() != nil {
+		f = f.Parent()
+	}
+	return f
+}
+
+func pkgPathOf(f *ssa.Function) string {
+	f = outermostFn(f)
+	if f.Pkg == nil || f.Pkg.Pkg == nil {
+		return ""
+	}
+	return f.Pkg.Pkg.Path()
+}
